@@ -1,0 +1,12 @@
+//go:build verif
+// +build verif
+
+package utility
+
+import "math/big"
+
+// Verification hook (property C18): the unexported conversions with an explicit decimal count,
+// so that the harness can compare them with the model on arbitrary strings and precisions.
+func VerifStrToBigInt(s string, decimal int64) (*big.Int, error) { return strToBigInt(s, decimal) }
+
+func VerifBigIntToStr(n *big.Int, precision int) string { return bigIntToStr(n, precision) }
